@@ -24,7 +24,8 @@ RULE = ('case = (scenario, field values, point in the conversation); distinct = 
         '(each ends an association in a specific way)')
 ASSUMPTIONS = ['loopback TCP is reliable']
 REQUIRED = ['oracle.reject-faithful', 'oracle.abort-faithful', 'oracle.release-faithful',
-            'oracle.context-manager', 'oracle.no-service-on-refused']
+            'oracle.context-manager', 'oracle.no-service-on-refused', 'oracle.exit-after-timeout-releases',
+            'oracle.exit-through-library-error', 'oracle.exit-through-foreign-error']
 
 SCENARIOS = ['reject-lib-lib', 'reject-refpeer-acceptor', 'reject-then-hostile-request',
              'abort-by-requestor-lib-lib', 'abort-by-requestor-refpeer-acceptor',
@@ -42,11 +43,20 @@ def exhaustive(tier):
 
 
 def plan(tier, seed):
-    return [{'lo': p[0], 'hi': p[-1] + 1} for p in chunked(range(N[tier]), 16) if p]
+    from . import c14exit
+    rounds = 1 if tier == 'quick' else 12
+    return [{'lo': p[0], 'hi': p[-1] + 1} for p in chunked(range(N[tier]), 16) if p] + \
+        [{'kind': 'exit', 'lo': p[0], 'hi': p[-1] + 1}
+         for p in chunked(range(c14exit.n_cases() * rounds), 12) if p]
 
 
 def run_shard(spec, tier, seed):
     res = Result()
+    if spec.get('kind') == 'exit':
+        from . import c14exit
+        for j in range(spec['lo'], spec['hi']):
+            c14exit.run_case(res, {'index': j, 'seed': seed + j // c14exit.n_cases()})
+        return res
     for i in range(spec['lo'], spec['hi']):
         run_case(res, {'index': i, 'seed': seed})
     return res
@@ -54,6 +64,10 @@ def run_shard(spec, tier, seed):
 
 def replay(case):
     res = Result()
+    if case.get('kind') == 'exit':
+        from . import c14exit
+        c14exit.run_case(res, {'index': case['index'], 'seed': case['seed']})
+        return res
     run_case(res, case)
     return res
 
